@@ -157,6 +157,11 @@ def run_case(case):
     v.close("response == filter x directional gain x polarization gain x efficiency (/ antenna factor for fields)",
             float(np.max(np.abs(exp - ov))) / sc_nat, 1e-10 + 3 * th_tol, kind=kind, vtype=vt, geom=geom)
     sc = max(float(np.max(np.abs(ov))), 1e-3 * sc_nat)
+    # ---- without a direction (or without a polarization) the corresponding gain is 1
+    for label, kw_, fac_ in (("no direction", dict(polarization=pol), pg), ("no polarization", dict(direction=d), dg), ("neither", {}, 1.0)):
+        got_n = np.array(ant.apply_response(s, force_real=fr_, **kw_).values)
+        exp_n = ref_filter(s.values, t[1] - t[0], H, fr_) * fac_ * base.efficiency / (base.antenna_factor if vt == "field" else 1.0)
+        v.close("a gain whose argument is not given counts as 1", float(np.max(np.abs(exp_n - got_n))) / sc_nat, 1e-10 + 3 * th_tol, omitted=label, kind=kind, vtype=vt)
     # ---- linear in the signal
     a_, b_ = rng.normal(size=2)
     comb = Signal(t, a_ * s.values + b_ * s2.values, vt)
